@@ -18,7 +18,7 @@ META = {
                    '1-5 s, and three consumption patterns: consumed fully, generator closed after k items, consumer fails after k items and the generator is '
                    'closed.  Bounded liveness is checked on the virtual clock: every comparison within timeout + 1 s (the polling slice) + epsilon, the '
                    'run terminates, no worker serves more replays than the recycle rate, and no simulated process is alive 0.05 s after the run '
-                   'completed or was abandoned. Also: an unkillable worker whose replay returns later must leave once the run is over; Event sleepers acknowledge set() as in multiprocessing (a killed sleeper blocks it).'),
+                   'completed or was abandoned. Also: an unkillable worker whose replay returns later must leave once the run is over; Event sleepers acknowledge set() as in multiprocessing (a killed sleeper blocks it). SIGINT delivered to the whole process group at a tape-chosen moment.'),
     'level_note': 'Trusted: fake multiprocessing and virtual clock; the liveness bound timeout + 1 s + jitter + queue delay + slow start is the documented polling behaviour. Abandonment means the generator is closed (garbage collection is disabled during a run).',
     'rule': ('evaluation = one comparison run in dedicated-process mode; non-trivial = at least one hang or worker death occurred, or the run was abandoned '
              'early; distinct = distinct event-log digest.'),
